@@ -31,12 +31,12 @@ let parse_hbank (t : toks) : M.hbank =
 
 let dump_hworld (w : M.hworld) : string =
   let bs = Stdlib.List.map (fun (hb : M.hbank) ->
-    String.concat " " [Drv_bankops.dump_bank hb.M.hb_b; zs hb.M.hb_b.M.b_flags; zs hb.M.hb_b.M.b_op_state;
+    Stdlib.String.concat " " [Drv_bankops.dump_bank hb.M.hb_b; zs hb.M.hb_b.M.b_flags; zs hb.M.hb_b.M.b_op_state;
                        zs hb.M.hb_vault; zs hb.M.hb_insv; zs hb.M.hb_feev; zs hb.M.hb_feeata]) w.M.hw_banks in
   let accs = Stdlib.List.mapi (fun i (a : M.hacct) ->
     let toks = Stdlib.List.nth w.M.hw_utok i in
-    String.concat " " ([Drv_bankops.dump_la a.M.ha_la; zs a.M.ha_flags] @ Stdlib.List.map zs toks)) w.M.hw_accts in
-  String.concat " ; " bs ^ " # " ^ String.concat " ; " accs
+    Stdlib.String.concat " " ([Drv_bankops.dump_la a.M.ha_la; zs a.M.ha_flags] @ Stdlib.List.map zs toks)) w.M.hw_accts in
+  Stdlib.String.concat " ; " bs ^ " # " ^ Stdlib.String.concat " ; " accs
 
 let suite_hops (line : string) : string =
   let t = toks_of_line line in
@@ -71,6 +71,6 @@ let suite_hops (line : string) : string =
       | M.Err e -> err_s e in
     out := (res ^ " # " ^ dump_hworld !w) :: !out
   done;
-  String.concat " | " (Stdlib.List.rev !out)
+  Stdlib.String.concat " | " (Stdlib.List.rev !out)
 
 let () = register "hops" suite_hops
